@@ -1,4 +1,4 @@
-"""C07 -- import tidying never changes what a name means (R07.1-R07.4)."""
+"""C07 -- import tidying never changes what a name means (R07.1-R07.7)."""
 from __future__ import annotations
 
 import ast
@@ -18,7 +18,8 @@ EXPLANATION = (
     "includes the __all__ list and the literal '__all__'.  R07.4: every concrete ImportInfo subclass has a "
     "visit<Name> method on the base visitor (dispatch is by class name).  R07.5: the used-name recorder adds every "
     "dotted prefix of a used primary (the one-time selector needs prefix-closure).  R07.6: in the star-import branch the "
-    "stateful selector is consulted only until its first acceptance.  Idempotence, re-emitted text and sort keys "
+    "stateful selector is consulted only until its first acceptance.  R07.7: a from-import is identified by (module_name, level): "
+    "module_name equality between two infos is always paired with level equality, and a rebuilt FromImport keeps the level of its source.  Idempotence, re-emitted text and sort keys "
     "are not decided."
 )
 ASSUMPTIONS = ["scope-opening constructors without a handler in the finder (async def, lambda, comprehensions) only make more names count as used: conservative, not armed"]
@@ -29,6 +30,11 @@ GLOBAL = "rope.refactor.importutils.module_imports._GlobalUnboundNameFinder"
 
 
 def check(ctx, res) -> None:
+    _check_main(ctx, res)
+    _from_import_identity_rule(ctx, res)
+
+
+def _check_main(ctx, res) -> None:
     idx = ctx.idx
     v = vgc_mod.get(ctx)
     for q in (FINDER, LOCAL, GLOBAL):
@@ -241,3 +247,61 @@ def check(ctx, res) -> None:
                     "in the star-import branch the stateful one-time selector is evaluated for every exported name (eager comprehension / no break after "
                     "acceptance): all used names the star module exports are marked as provided, so a later explicit import overriding one of them is "
                     "judged unused and removed -- the name silently resolves to the star module's object")
+
+
+def _from_import_identity_rule(ctx, res) -> None:
+    """R07.7: a from-import is identified by (module_name, level).  (a) wherever two import infos are compared by
+    module_name, the same two operands are also compared by level in the same conjunction (or a dominating test);
+    (b) wherever a FromImport is rebuilt from another info's module_name, that info's level is passed along."""
+    from ..cfg import CFG
+
+    idx = ctx.idx
+    na = nb = 0
+    for f in sorted(idx.functions.values(), key=lambda f: f.qualname):
+        if not (f.unit.modname.startswith("rope.refactor.importutils") or f.unit.modname == "rope.refactor.move"):
+            continue
+        short = f.qualname.split(".", 2)[-1]
+        cfg = None
+        ka = kb = 0
+        for x in walk_local(f.node):
+            # (a)
+            if isinstance(x, ast.Compare) and len(x.ops) == 1 and isinstance(x.ops[0], (ast.Eq, ast.NotEq)) \
+                    and isinstance(x.left, ast.Attribute) and x.left.attr == "module_name" \
+                    and isinstance(x.comparators[0], ast.Attribute) and x.comparators[0].attr == "module_name":
+                na += 1
+                ka += 1
+                A, B = norm(x.left.value), norm(x.comparators[0].value)
+
+                def is_level_cmp(t) -> bool:
+                    return isinstance(t, ast.Compare) and len(t.ops) == 1 and isinstance(t.ops[0], type(x.ops[0])) \
+                        and isinstance(t.left, ast.Attribute) and t.left.attr == "level" and isinstance(t.comparators[0], ast.Attribute) \
+                        and t.comparators[0].attr == "level" and {norm(t.left.value), norm(t.comparators[0].value)} == {A, B}
+
+                ok = False
+                for b in walk_local(f.node):
+                    if isinstance(b, ast.BoolOp) and any(v is x for v in b.values) and any(is_level_cmp(v) for v in b.values):
+                        ok = isinstance(b.op, ast.And) == isinstance(x.ops[0], ast.Eq)
+                if not ok:
+                    cfg = cfg or CFG(f.node)
+                    for nd in cfg.node_containing(x):
+                        if any(is_level_cmp(t) and pol for t, pol in cfg.guards(nd.id)):
+                            ok = True
+                res.add("R07.7", f"{short}|same-module#{ka}", ok, f"{f.unit.rel}:{x.lineno}",
+                        "module_name equality is paired with level equality of the same operands" if ok else
+                        f"{short} treats two from-imports as the same module when their module_name is equal, without comparing .level: "
+                        "`from . import a` and `from .. import b` (or `from .util import x` and `from util import y`) are merged into one statement, so a "
+                        "name is afterwards imported from a different module", function=f.qualname)
+            # (b)
+            if isinstance(x, ast.Call) and call_name(x) == "FromImport" and x.args and isinstance(x.args[0], ast.Attribute) \
+                    and x.args[0].attr == "module_name":
+                nb += 1
+                kb += 1
+                src = norm(x.args[0].value)
+                lvl = x.args[1] if len(x.args) > 1 else next((k.value for k in x.keywords if k.arg == "level"), None)
+                ok = isinstance(lvl, ast.Attribute) and lvl.attr == "level" and norm(lvl.value) == src
+                res.add("R07.7", f"{short}|rebuild#{kb}", ok, f"{f.unit.rel}:{x.lineno}",
+                        "the rebuilt from-import keeps the level of the statement it replaces" if ok else
+                        f"{short} rebuilds a from-import from {src}.module_name but passes {ast.unparse(lvl) if lvl is not None else 'no level'} as its level: "
+                        "a relative import is re-emitted with a different number of leading dots and resolves to another module", function=f.qualname)
+    res.floor("R07.7", "module_name comparisons between import infos", na, 1)
+    res.floor("R07.7", "from-imports rebuilt from another info", nb, 5)
